@@ -4029,6 +4029,8 @@ EbErrorType svt_output_buffer_header_creator(
 void svt_output_buffer_header_destroyer(    EbPtr p)
 {
     EbBufferHeaderType* obj = (EbBufferHeaderType*)p;
+    // payload of a packet that was never handed out or never released by the application
+    EB_FREE(obj->p_buffer);
     EB_FREE(obj);
 }
 
